@@ -22,11 +22,13 @@ import (
 	"strings"
 	"time"
 
+	"github.com/osrg/gobgp/v4/api"
 	"github.com/osrg/gobgp/v4/internal/pkg/table"
 	"github.com/osrg/gobgp/v4/internal/verif/polcfg"
 	"github.com/osrg/gobgp/v4/internal/verif/sx"
 	"github.com/osrg/gobgp/v4/pkg/config/oc"
 	"github.com/osrg/gobgp/v4/pkg/packet/bgp"
+	"github.com/osrg/gobgp/v4/pkg/server"
 )
 
 func ip(n uint64) netip.Addr {
@@ -127,6 +129,25 @@ func run(line string) (out string) {
 	}
 	if o1 != o2 {
 		return "not-repeatable " + o1 + " / " + o2
+	}
+	// the same configuration as the daemon loads it from a configuration file: converted to the API form
+	// (NewAPIRoutingPolicyFromConfigStruct) and installed through SetPolicies' converter; it must evaluate alike
+	if arp, err := table.NewAPIRoutingPolicyFromConfigStruct(&oc.RoutingPolicy{DefinedSets: ds, PolicyDefinitions: pds}); err != nil {
+		return "err api-form " + strings.ReplaceAll(err.Error(), "\n", " ")
+	} else if back, err := server.VerifRoutingPolicyFromAPI(&api.SetPoliciesRequest{DefinedSets: arp.DefinedSets, Policies: arp.Policies}); err != nil {
+		return "err api-conversion " + strings.ReplaceAll(err.Error(), "\n", " ")
+	} else {
+		rp3 := table.NewRoutingPolicy(slog.Default())
+		if err := rp3.Reset(back, ap); err != nil {
+			return "err api-config " + strings.ReplaceAll(err.Error(), "\n", " ")
+		}
+		o3 := "rejected"
+		if res3 := rp3.ApplyPolicy("global", table.POLICY_DIRECTION_IMPORT, path, nil); res3 != nil {
+			o3 = "accepted " + show(res3)
+		}
+		if o3 != o1 {
+			return "loaded-through-the-api-differs " + o1 + " / " + o3
+		}
 	}
 	return o1
 }
